@@ -123,6 +123,7 @@ structure Layout (F : FTy) (p eb : Nat) : Prop where
   hL : 63 ≤ 2 ^ (eb - 1) - 1 + (p - 1) - 1
   maxMant : F.C.maxMantissaFastPath = ((2 ^ p : Nat) : Int)
   hpb : p + 1 ≤ 2 ^ (eb - 1) - 1
+  hL127 : 127 ≤ 2 ^ (eb - 1) - 1 + (p - 1) - 1
 
 theorem layout_f64 : Layout FTy.f64 53 11 := by
   constructor <;> decide
